@@ -250,6 +250,12 @@ def run_seeded_one(meta, repo=None):
         if meta.get("kind") == "preserve":
             res["status"] = "silent" if not res["rules"] else "false-alarm"
             return res
+        if meta.get("kind") == "preserve-structural":
+            # behaviour-preserving, but the private decomposition the rules are anchored on (function identities, parameter
+            # lists, result types) was changed: the rules are expected to fail closed (DESIGN.md section 16, round I) -
+            # recorded as a measured limit, not as a regression input
+            res["status"] = "silent" if not res["rules"] else "alarm-as-documented"
+            return res
         own = [r for r in res["rules"] if r.startswith(meta.get("property", "?") + ".")]
         res["status"] = "caught" if own else ("caught-by-other-property" if res["rules"] else "missed")
         return res
